@@ -134,11 +134,10 @@ Definition failures (e : cov_entry) : list Z :=
       (if chk_form e r then [] else [5%Z]) ++ (if chk_param e r then [] else [6%Z])
   end.
 
-(* the discrepancies between the tree and the reference that are reported as FINDINGS (confirmed on the
-   implementation by a point set with a negative eigenvalue).  Penta, Cosexp and Cardinal Sine left this list with
-   fixes C03_1 / C03_2; J-Bessel (parameter below (d-2)/2 accepted) is a known finding *)
+(* the discrepancies between the tree and the reference that are reported as FINDINGS: none is left (Penta, Cosexp,
+   Cardinal Sine: fixes C03_1 / C03_2; J-Bessel: fix C03_8, the parameter is kept above (ndim-2)/2) *)
 Definition known_discrepancies : list (string * Z) :=
-  [("J-Bessel", 1%Z)].
+  [].
 
 Definition allowed (name : string) (code : Z) : bool :=
   existsb (fun p => String.eqb name (fst p) && Z.eqb code (snd p)) known_discrepancies.
